@@ -220,7 +220,7 @@ def one_dataset(ctx, rng, xr):
         if r is not None:
             chk("hmax", get(r), kk * 4 * np.sqrt(m0t), cond=cond)
     # --- slope -----------------------------------------------------------------------
-    depth = float(10 ** rng.uniform(-0.5, 3.5))
+    depth = float(10 ** rng.uniform(-2, 3.5))
     r = call("mss", lambda: acc.mss())
     if r is not None:
         chk("mss", get(r), I.mss(e1, f64, I.k_deep(f64)))
@@ -329,7 +329,7 @@ def dispersion(ctx, rng, xr, utils):
     rec = ctx.rec
     n = int(rng.integers(1, 30))
     f = 10 ** rng.uniform(np.log10(3e-3), np.log10(3.0), n)
-    d = float(10 ** rng.uniform(-1, 4))
+    d = float(10 ** rng.uniform(-2.5, 4))      # flumes and swash depths of millimetres up to the abyss
     regime = "shallow" if np.median(I.k_exact(f, d) * d) < 0.3 else ("deep" if np.median(I.k_exact(f, d) * d) > 3 else "inter")
     key = "regime=%s|n=%d" % (regime, min(n, 5))
     kx = I.k_exact(f, d)
